@@ -76,6 +76,45 @@ theorem init_CInv (w : W) (simTime prevTime : Int) : CInv cfg (init (RN := RN) (
   · intro h hh; simp [init] at hh
   · intro _ c hc; simp [init] at hc
 
+/-- the early return either does not apply (then `enter = init`) or leaves a halted copy of `init` -/
+theorem enter_cases (w : W) (simTime prevTime : Int) :
+    enter (RN := RN) (RL := RL) cfg w simTime prevTime = init w simTime prevTime ∨
+    (enter (RN := RN) (RL := RL) cfg w simTime prevTime = { (init w simTime prevTime : St W RN RL) with halt := some .finished } ∧
+      simTime ≠ 0 ∧ simTime > cfg.duration) := by
+  unfold enter
+  by_cases h : (!(init (RN := RN) (RL := RL) w simTime prevTime).firstStep &&
+      decide ((init (RN := RN) (RL := RL) w simTime prevTime).simTime > cfg.duration)) = true
+  · right
+    simp only [h, if_true, true_and]
+    simp only [init, Bool.and_eq_true, Bool.not_eq_true', beq_eq_false_iff_ne, decide_eq_true_eq] at h
+    exact ⟨h.1, h.2⟩
+  · left; simp only [h]; rfl
+
+theorem enter_TInv {simTime prevTime : Int} (w : W) (hS : Start cfg simTime prevTime)
+    (hh : (enter (RN := RN) (RL := RL) cfg w simTime prevTime).halt = none) :
+    TInv cfg (max cfg.duration simTime) (enter (RN := RN) (RL := RL) cfg w simTime prevTime) := by
+  rcases enter_cases (RN := RN) (RL := RL) cfg w simTime prevTime with e | ⟨e, _⟩
+  · rw [e]; exact init_TInv cfg w hS
+  · rw [e] at hh; simp at hh
+
+theorem enter_LInv (w : W) (simTime prevTime : Int) : LInv cfg (enter (RN := RN) (RL := RL) cfg w simTime prevTime) := by
+  rcases enter_cases (RN := RN) (RL := RL) cfg w simTime prevTime with e | ⟨e, _⟩
+  · rw [e]; exact init_LInv cfg w _ _
+  · rw [e]; refine ⟨?_, ?_, ?_, ?_, ?_, ?_, ?_, ?_⟩ <;> simp [init]
+
+theorem enter_CInv (w : W) (simTime prevTime : Int) : CInv cfg (enter (RN := RN) (RL := RL) cfg w simTime prevTime) := by
+  rcases enter_cases (RN := RN) (RL := RL) cfg w simTime prevTime with e | ⟨e, _⟩
+  · rw [e]; exact init_CInv cfg w _ _
+  · rw [e]
+    refine ⟨by simp [init], ?_, ?_⟩
+    · intro h hh hn; simp at hh; subst hh; simp [Halt.isNoConv] at hn
+    · intro _ c hc; simp [init] at hc
+
+theorem enter_times (w : W) (simTime prevTime : Int) :
+    (enter (RN := RN) (RL := RL) cfg w simTime prevTime).simTime = simTime ∧
+    (enter (RN := RN) (RL := RL) cfg w simTime prevTime).prevTime = (init (RN := RN) (RL := RL) w simTime prevTime).prevTime := by
+  rcases enter_cases (RN := RN) (RL := RL) cfg w simTime prevTime with e | ⟨e, _⟩ <;> rw [e] <;> exact ⟨rfl, rfl⟩
+
 theorem presolvePhase_prev (s : St W RN RL) : (presolvePhase wd s).prevTime = s.prevTime := by
   cases hr : s.resolve with
   | true => rw [presolvePhase_resolve wd hr]
@@ -83,16 +122,16 @@ theorem presolvePhase_prev (s : St W RN RL) : (presolvePhase wd s).prevTime = s.
 
 /-- along a contract-honouring run the log invariant holds everywhere and the loop invariant in every running state -/
 theorem run_invariants {simTime prevTime : Int} (w : W) (hS : Start cfg simTime prevTime)
-    (hC : Contract wd cfg (init w simTime prevTime)) (n : Nat) :
-    LInv cfg (iter wd cfg n (init w simTime prevTime)) ∧
-    ((iter wd cfg n (init w simTime prevTime)).halt = none →
-      TInv cfg (max cfg.duration simTime) (iter wd cfg n (init w simTime prevTime))) := by
+    (hC : Contract wd cfg (enter cfg w simTime prevTime)) (n : Nat) :
+    LInv cfg (iter wd cfg n (enter cfg w simTime prevTime)) ∧
+    ((iter wd cfg n (enter cfg w simTime prevTime)).halt = none →
+      TInv cfg (max cfg.duration simTime) (iter wd cfg n (enter cfg w simTime prevTime))) := by
   induction n with
-  | zero => exact ⟨init_LInv cfg w _ _, fun _ => init_TInv cfg w hS⟩
+  | zero => exact ⟨enter_LInv cfg w _ _, fun hh => enter_TInv cfg w hS hh⟩
   | succ n ih =>
     rw [iter_succ']
     obtain ⟨l, t⟩ := ih
-    by_cases hs : (iter wd cfg n (init w simTime prevTime)).halt = none
+    by_cases hs : (iter wd cfg n (enter cfg w simTime prevTime)).halt = none
     · have inv := t hs
       obtain ⟨m1, _⟩ := presolve_mid wd cfg hs inv (hC n)
       have hlt := m1.prev_lt
@@ -117,17 +156,17 @@ theorem pot_lt_fuel (P : Int) (Mn : Nat) (hP : 0 ≤ P) :
 `fuel = (max(duration, t₀) − prev₀)·(max(trials,0)+1) + 1` passes (measure: remaining seconds × trials per step +
 remaining trials); the fuelled function is the unbounded semantics, and more fuel changes nothing. -/
 theorem run_terminates {simTime prevTime : Int} (w : W) (hS : Start cfg simTime prevTime)
-    (hC : Contract wd cfg (init w simTime prevTime)) :
+    (hC : Contract wd cfg (enter cfg w simTime prevTime)) :
     (runSim wd cfg w simTime prevTime).halt ≠ none ∧
-    Runs wd cfg (init w simTime prevTime) (runSim wd cfg w simTime prevTime) ∧
-    ∀ n, fuel cfg (init (W := W) (RN := RN) (RL := RL) w simTime prevTime).simTime
-        (init (W := W) (RN := RN) (RL := RL) w simTime prevTime).prevTime ≤ n →
-      iter wd cfg n (init w simTime prevTime) = runSim wd cfg w simTime prevTime := by
+    Runs wd cfg (enter cfg w simTime prevTime) (runSim wd cfg w simTime prevTime) ∧
+    ∀ n, fuel cfg (enter (W := W) (RN := RN) (RL := RL) cfg w simTime prevTime).simTime
+        (enter (W := W) (RN := RN) (RL := RL) cfg w simTime prevTime).prevTime ≤ n →
+      iter wd cfg n (enter cfg w simTime prevTime) = runSim wd cfg w simTime prevTime := by
   have inv := init_TInv (RN := RN) (RL := RL) cfg w hS
-  have hp : potential cfg (max cfg.duration simTime) (init (RN := RN) (RL := RL) w simTime prevTime) <
-      (fuel cfg (init (W := W) (RN := RN) (RL := RL) w simTime prevTime).simTime
-        (init (W := W) (RN := RN) (RL := RL) w simTime prevTime).prevTime : Nat) :=
-    pot_lt_fuel (max cfg.duration simTime - (init (W := W) (RN := RN) (RL := RL) w simTime prevTime).prevTime)
+  have hp : potential cfg (max cfg.duration simTime) (enter (RN := RN) (RL := RL) cfg w simTime prevTime) <
+      (fuel cfg (enter (W := W) (RN := RN) (RL := RL) cfg w simTime prevTime).simTime
+        (enter (W := W) (RN := RN) (RL := RL) cfg w simTime prevTime).prevTime : Nat) :=
+    pot_lt_fuel (max cfg.duration simTime - (enter (W := W) (RN := RN) (RL := RL) cfg w simTime prevTime).prevTime)
       cfg.maxTrials.toNat (by have := inv.prev_lt; have := inv.le_D; omega)
   have hh : (runSim wd cfg w simTime prevTime).halt ≠ none :=
     halts_within wd cfg hS.hyd_pos (Int.le_max_left _ _) _ _ (by simp [init]) inv hC hp
@@ -188,8 +227,8 @@ theorem contract_needed :
 (every accepted step for 'ALL'), the node lists and the link lists have one entry per reported time (so the two
 families of tables share the index), and 'Simulation already solved this timestep' is never raised. -/
 theorem times_strictly_increasing_on_grid {simTime prevTime : Int} (w : W) (hS : Start cfg simTime prevTime)
-    (hC : Contract wd cfg (init w simTime prevTime)) (n : Nat) :
-    let s := iter wd cfg n (init w simTime prevTime)
+    (hC : Contract wd cfg (enter cfg w simTime prevTime)) (n : Nat) :
+    let s := iter wd cfg n (enter cfg w simTime prevTime)
     s.times.Pairwise (· < ·) ∧
     s.accepted.Pairwise (· < ·) ∧
     s.times = s.accepted.filter (reportNow cfg) ∧
@@ -214,12 +253,12 @@ theorem times_strictly_increasing_on_grid {simTime prevTime : Int} (w : W) (hS :
 
 /-- the tables `run_sim` returns (when it returns) are indexed by that list: both families use `results.time` -/
 theorem result_tables_share_index {simTime prevTime : Int} (w : W) (hS : Start cfg simTime prevTime)
-    (hC : Contract wd cfg (init w simTime prevTime)) (r : Result RN RL)
+    (hC : Contract wd cfg (enter cfg w simTime prevTime)) (r : Result RN RL)
     (hr : (runSim wd cfg w simTime prevTime).result = some r) :
     r.times.Pairwise (· < ·) ∧ r.nodeRows.length = r.times.length ∧ r.linkRows.length = r.times.length := by
   obtain ⟨l, _⟩ := run_invariants wd cfg w hS hC
-    (fuel cfg (init (W := W) (RN := RN) (RL := RL) w simTime prevTime).simTime
-      (init (W := W) (RN := RN) (RL := RL) w simTime prevTime).prevTime)
+    (fuel cfg (enter (W := W) (RN := RN) (RL := RL) cfg w simTime prevTime).simTime
+      (enter (W := W) (RN := RN) (RL := RL) cfg w simTime prevTime).prevTime)
   unfold St.result at hr
   split at hr
   · cases hr
@@ -248,27 +287,31 @@ over by the backup solver (it is a backup call itself, or there is no backup sol
 the state is halted with the no-convergence status -- so a run that ends `finished` (error_code None) contains only
 converged calls and rescued primary calls. -/
 theorem never_hidden (w : W) (simTime prevTime : Int) (n : Nat) (b : Bool) (o : SolveOutcome)
-    (hmem : (b, o) ∈ (iter wd cfg n (init w simTime prevTime)).calls) (ho : o.ok = false)
+    (hmem : (b, o) ∈ (iter wd cfg n (enter cfg w simTime prevTime)).calls) (ho : o.ok = false)
     (hb : b = true ∨ cfg.backup = false) :
-    (iter wd cfg n (init w simTime prevTime)).halt = some (if cfg.convErr then .raiseNoConv else .flagNoConv) ∧
-    (iter wd cfg n (init w simTime prevTime)).calls.getLast? = some (b, o) := by
-  have hC : ∀ n, CInv cfg (iter wd cfg n (init w simTime prevTime)) ∧
-      (∀ h, (iter wd cfg n (init w simTime prevTime)).halt = some h → h.isNoConv = true → h = failHalt cfg) := by
+    (iter wd cfg n (enter cfg w simTime prevTime)).halt = some (if cfg.convErr then .raiseNoConv else .flagNoConv) ∧
+    (iter wd cfg n (enter cfg w simTime prevTime)).calls.getLast? = some (b, o) := by
+  have hC : ∀ n, CInv cfg (iter wd cfg n (enter cfg w simTime prevTime)) ∧
+      (∀ h, (iter wd cfg n (enter cfg w simTime prevTime)).halt = some h → h.isNoConv = true → h = failHalt cfg) := by
     intro n
     induction n with
-    | zero => exact ⟨init_CInv cfg w _ _, fun h hh => by simp [iter, init] at hh⟩
+    | zero =>
+      refine ⟨enter_CInv cfg w _ _, fun h hh hn => ?_⟩
+      rcases enter_cases (RN := RN) (RL := RL) cfg w simTime prevTime with e | ⟨e, _⟩
+      · rw [iter, e] at hh; simp [init] at hh
+      · rw [iter, e] at hh; simp at hh; subst hh; simp [Halt.isNoConv] at hn
     | succ n ih =>
       rw [iter_succ']
-      by_cases hs : (iter wd cfg n (init w simTime prevTime)).halt = none
+      by_cases hs : (iter wd cfg n (enter cfg w simTime prevTime)).halt = none
       · refine ⟨step_CInv wd cfg hs ih.1, ?_⟩
         intro h hh hn
         rw [step_running wd cfg hs] at hh
         split at hh
         · rename_i hok
-          have h2 : (solvePhase wd cfg (presolvePhase wd (iter wd cfg n (init w simTime prevTime)))).1.halt = none := by
-            obtain ⟨w', l, heq, _⟩ := solvePhase_spec wd cfg (presolvePhase wd (iter wd cfg n (init w simTime prevTime)))
+          have h2 : (solvePhase wd cfg (presolvePhase wd (iter wd cfg n (enter cfg w simTime prevTime)))).1.halt = none := by
+            obtain ⟨w', l, heq, _⟩ := solvePhase_spec wd cfg (presolvePhase wd (iter wd cfg n (enter cfg w simTime prevTime)))
             rw [heq]
-            cases hr : (iter wd cfg n (init w simTime prevTime)).resolve with
+            cases hr : (iter wd cfg n (enter cfg w simTime prevTime)).resolve with
             | true => rw [presolvePhase_resolve wd hr]; exact hs
             | false => rw [presolvePhase_fresh wd hr]; exact hs
           have hfl : h.isFailure = true := by cases h <;> simp_all [Halt.isNoConv, Halt.isFailure]
@@ -277,14 +320,14 @@ theorem never_hidden (w : W) (simTime prevTime : Int) (n : Nat) (b : Bool) (o : 
         · simp only [Option.some.injEq] at hh; exact hh.symm
       · rw [step_of_halted wd cfg hs]; exact ih
   obtain ⟨ci, hk⟩ := hC n
-  have hnot : ¬ CallsClean cfg (iter wd cfg n (init w simTime prevTime)).calls := by
+  have hnot : ¬ CallsClean cfg (iter wd cfg n (enter cfg w simTime prevTime)).calls := by
     intro hc
     rcases hc _ hmem with h | ⟨h1, h2⟩
     · simp only at h; rw [ho] at h; cases h
     · simp only at h2; rcases hb with hb | hb
       · rw [hb] at h2; cases h2
       · rw [hb] at h1; cases h1
-  have hex : ∃ h, (iter wd cfg n (init w simTime prevTime)).halt = some h ∧ h.isNoConv = true := by
+  have hex : ∃ h, (iter wd cfg n (enter cfg w simTime prevTime)).halt = some h ∧ h.isNoConv = true := by
     by_contra hne
     apply hnot
     apply ci.clean
